@@ -109,11 +109,30 @@ def extracted_red(repo):
     return tr.gen_module("onl/netdev/red_port.py: REDPort.put", "red_st", "r_", RED_STATE, "red_fx", RED_EFFECTS, [spec])
 
 
+MON_EFFECTS = [("FxSize", "(n : Z)"),                        # self._sizes.append(n)
+               ("FxSizeByte", "(b : Z)")]                    # self._sizes_byte.append(b)
+MON_READS = [("self.pkt_in_service_included", "incl", "bool"),
+             ("self.port.byte_size", "byte_size", "Z"),
+             ("self.port.store.items", "n_items", "len"),
+             ("self.port.busy", "busy", "Z"),
+             ("self.port.busy_packet_size", "busy_packet_size", "Z")]
+MON_FX = [("self._sizes.append(_1)", "FxSize", ["Z"]), ("self._sizes_byte.append(_1)", "FxSizeByte", ["Z"])]
+
+
+def extracted_portmon(repo):
+    import os
+    from vlib import translate as tr
+    spec = tr.FnSpec(os.path.join(repo, "onl", "netdev", "port_monitor.py"), "PortMonitor", "run", "gen_PortMonitor_sample",
+                     reads=MON_READS, effects=MON_FX, select="loop_after_yield")
+    return tr.gen_module("onl/netdev/port_monitor.py: PortMonitor.run, the statements after each `yield timeout(dist())`",
+                         None, "", [], "mon_fx", MON_EFFECTS, [spec])
+
+
 class PortPart:
     name = "port"
     kinds = ["port", "redport", "portmon"]
     serves = ["C09", "C08"]
-    props_files = {"C09": ["Props/C09.v", "Props/C09_Bridge.v", "Props/C09_BridgeRed.v"], "C08": ["Props/C08_Port.v"]}
+    props_files = {"C09": ["Props/C09.v", "Props/C09_Bridge.v", "Props/C09_BridgeRed.v", "Props/C09_BridgeMon.v"], "C08": ["Props/C08_Port.v"]}
     coq_imports = ["From ONL Require Import Base.Cmp Elem.Packet Elem.StoreQ Elem.Port Elem.Red."]
     weight = 1
     nontrivial_rule = {
@@ -133,8 +152,8 @@ class PortPart:
                 "what put() wrote into packet.perhop_time and what PortMonitor appended to sizes/sizes_byte are read from the "
                 "objects after each action",
                 "vlib/translate.py (Python ast, fail closed; observation/effect tables in props/part_port.py) regenerates "
-                "coq/Gen/Extracted_port.v and Extracted_red.v from the put() bodies of the tree under test before every build; the C09_gen_* theorems "
-                "(Props/C09_Bridge.v, C09_BridgeRed.v) bridge them to the hand-written model; print() calls are ignored"],
+                "coq/Gen/Extracted_port.v, Extracted_red.v and Extracted_portmon.v from the put() bodies and PortMonitor's sampling statements of the tree under test before every build; the C09_gen_* theorems "
+                "(Props/C09_Bridge.v, C09_BridgeRed.v, C09_BridgeMon.v) bridge them to the hand-written model; print() calls are ignored"],
         "C08": ["packet identity = Python object identity recorded by the downstream tap"],
     }
     assumptions = {
@@ -157,6 +176,7 @@ class PortPart:
         from vlib import translate as tr
         tr.write_if_changed(os.path.join(fw.COQ, "Gen", "Extracted_port.v"), extracted_port(fw.REPO))
         tr.write_if_changed(os.path.join(fw.COQ, "Gen", "Extracted_red.v"), extracted_red(fw.REPO))
+        tr.write_if_changed(os.path.join(fw.COQ, "Gen", "Extracted_portmon.v"), extracted_portmon(fw.REPO))
 
     # ---- generation -----------------------------------------------------------------------------
     SIZES = {0: (10, 64, 100, 512, 1500), 8: (1, 2, 3, 4), 64: (2, 4, 8, 12, 16, 24),
